@@ -107,13 +107,13 @@ def popHeapOk (j : Json) : Bool :=
 /-- a sort of this epoch has a tie among MORE THAN 12 elements (pdqsort branch of `goSort`, where the order of equal
     elements is decided by pdqsort's pivoting).  Only used to label the case class (`:tie13`) - such scenarios are
     co-simulated bit-exactly like all others since the model sorts with `goSort`. -/
-def epochHasTie (o : EpochOpts Float) (p : Pop Float) : Bool :=
+def epochHasTie (o : EpochOpts Float) (p : Pop Float) : Bool × Bool :=
   match adjustAll o p.species with
-  | .error _ => false
+  | .error _ => (false, false)
   | .ok ss =>
-    ss.any (fun s => s.orgs.length > 12 && sortHasTie (fun a b => orgLess b a) s.orgs) ||
-    (let p1 := purgeZeroOffspringSpecies { p with species := ss }
-     p1.species.length > 12 && sortHasTie (fun a b => speciesLess b a) p1.species)
+    (ss.any (fun s => s.orgs.length > 12 && sortHasTie (fun a b => orgLess b a) s.orgs),
+     (let p1 := purgeZeroOffspringSpecies { p with species := ss }
+      p1.species.length > 12 && sortHasTie (fun a b => speciesLess b a) p1.species))
 
 /-- the genome dumps of a dumped population, species by species (the order of `species.flatMap orgs`) -/
 def popGenomesJ (j : Json) : List Json :=
@@ -155,8 +155,10 @@ def hEpoch : Handler := fun j => do
   let consumed ← fldNat j "consumed"
   let landscape ← fldStr inp "landscape"
   let implErr := optStr out "err"
-  let tie := epochHasTie o p
-  let cls := landscape ++ (if implErr.isSome then ":err" else "") ++ (if tie then ":tie13" else "")
+  let (tieOrgs, tieSpecies) := epochHasTie o p
+  -- :tie13 = some species of more than 12 organisms has a sort-key tie; :tie13s = (also) the list of more than 12 species has one
+  let cls := landscape ++ (if implErr.isSome then ":err" else "") ++
+    (if tieSpecies then ":tie13s" else if tieOrgs then ":tie13" else "")
   let n := o.popSize
   let heapIn := popHeapOk popJ
   let inputOk := heapIn && PopSpec.popInvB p n && p.species.all (fun s => s.orgs.all (fun x => decide (WF x.genome))) &&
